@@ -109,6 +109,13 @@ def current_obligation(cfg, pid, body):
         if cfg is not None:
             fh.write("Definition current_cfg : cfg := %s.\n" % coq_cfg(cfg))
         fh.write(body)
+    # the generated file may import the theorems of other properties: their compiled files must be those
+    # of the present sources (a stale one is refused by coqc with "inconsistent assumptions")
+    import re
+    deps = sorted(set(re.findall(r"\bC\d\d\b", " ".join(re.findall(r"From CB\.Properties Require Import ([^.]*)\.", body)))))
+    if deps:
+        with c.Lock("coq"):
+            c.sh(["timeout", "3000", "make", "-j16"] + ["Properties/%s.vo" % x for x in deps], cwd=c.COQ, timeout=3100, check=False)
     p = c.sh(["timeout", "900", "coqc", "-noglob", "-Q", c.COQ, "CB", f], cwd=d, timeout=1000, check=False)
     return p.returncode == 0, p.stdout[-3000:]
 
